@@ -98,6 +98,14 @@ pub fn c18_shapes(thorough: bool) -> Vec<Shape> {
         Shape::new("app_data_between_and_after_commitments", &[Commit, Msg("between".into()), Commit, Msg("after".into()), AllocMul, Con], &[]),
         // a full gate (allocate_multiplier / multiply) between two paired single allocations
         Shape::new("gates_between_paired_allocations", &[Commit, Alloc, AllocMul, Alloc, Alloc, Mul, Alloc, Con], &[]),
+        // an allocation left open at the end of the first phase, single allocations in the randomized phase
+        Shape::new("open_allocation_across_the_phase_boundary", &[Commit, AllocMul, Alloc], &[&[Chal, Alloc, Alloc, Con]]),
+        // two challenges under the same label in one closure and one more in a second closure, data in between
+        Shape::new("repeated_challenge_labels", &[Commit, AllocMul], &[&[Chal, Con, Chal, Msg("x".into()), Con], &[Chal, Con]]),
+        // a randomized phase that only adds constraints (no second-phase gate)
+        Shape::new("closure_with_constraints_only", &[Commit, AllocMul, Con], &[&[Chal, Con, ConCommitted]]),
+        // equal commitments, an identity commitment
+        Shape::new("equal_and_identity_commitments", &[Commit, CommitDup, CommitZero, AllocMul, Con, ConCommitted], &[]),
     ];
     if thorough {
         v.push(Shape::new("four_gates", &[Commit, AllocMul, AllocMul, AllocMul, AllocMul, Con], &[]));
